@@ -32,9 +32,9 @@ InitOD == /\ tree \in (IF Wide THEN WideTrees ELSE AllTrees)
           /\ path \in Paths(ParseText(RenderL(tree, layout)).v, D)
 NextOD == UNCHANGED <<tree, layout, path>>
 
-CaseOD == LET x == Text r == ParseText(x) lk == Lookup(r.v, path) IN
-  [t |-> x, ok |-> r.ok, path |-> path, found |-> lk.found, v |-> lk.v, layout |-> layout]
+CaseODOf(x, r, lk) == [t |-> x, ok |-> r.ok, path |-> path, found |-> lk.found, v |-> lk.v, layout |-> layout]
+CaseOD == CaseODOf(Text, ParseText(Text), Lookup(ParseText(Text).v, path))
 \* design level: the scanner model (spec/SkipScan.tla) agrees with Lookup on every generated case and reads nothing outside the text
 ODEquiv == Equiv(Text, path) /\ InBounds(Text, path)
-EmitOD == CSVWrite("%1$s", <<ToJson(CaseOD)>>, IOEnv.OUT)
+EmitOD == \A x \in {Text} : \A r \in {ParseText(x)} : \A lk \in {Lookup(r.v, path)} : CSVWrite("%1$s", <<ToJson(CaseODOf(x, r, lk))>>, IOEnv.OUT)
 =============================================================================
